@@ -58,6 +58,7 @@ pub struct Case {
 }
 
 const IGNORE: [&str; 1] = ["pending_key_package_removal"];
+const OTHER_GROUP: &[u8] = b"verif-group-other";
 
 struct Run<'a> {
     w: World,
@@ -67,6 +68,8 @@ struct Run<'a> {
     ctx: &'a mut Ctx,
     label: String,
     wrote_since_twin: bool,
+    /// readable epoch records of the bystander group at the last sweep
+    other_kept: Option<usize>,
 }
 
 impl<'a> Run<'a> {
@@ -276,6 +279,19 @@ impl<'a> Run<'a> {
         for i in 0..=e {
             let _ = store.epoch(&gid, i);
         }
+        // the bystander group's records are as they were written (3-way compared like the rest)
+        let _ = store.state(OTHER_GROUP);
+        let _ = store.max_epoch_id(OTHER_GROUP);
+        let mut kept = 0;
+        for i in 0..=4u64 {
+            if let Ok(Some(_)) = store.epoch(OTHER_GROUP, i) {
+                kept += 1;
+            }
+        }
+        if self.other_kept.map(|k| k != kept).unwrap_or(false) {
+            self.sig("bystander-group-records-changed".into(), format!("the stored epoch records of another group in the same storage went from {:?} to {kept} although nothing touched that group", self.other_kept));
+        }
+        self.other_kept = Some(kept);
         for l in stores::tee_take_log() {
             let kind = l.split(':').next().unwrap_or("").split('(').next().unwrap_or("").to_string();
             self.sig(format!("stores-disagree|{kind}"), format!("in-memory store, SQLite store and reference model disagree: {l}"));
@@ -332,12 +348,21 @@ pub fn run_case(c: &Case, ctx: &mut Ctx) {
             for p in [1, 2] {
                 w.join(p, &b.out.welcome_messages[0], None)?;
             }
+            // B keeps a second, unrelated group in the same storage: four written epochs that
+            // nothing in the case touches again
+            let mut other = w.parties[B].client.create_group_with_id(OTHER_GROUP.to_vec(), Default::default(), Default::default(), w.now())?;
+            for _ in 0..3 {
+                other.commit(vec![])?;
+                other.apply_pending_commit()?;
+                other.write_to_storage()?;
+            }
             Ok::<(), mls_rs::error::MlsError>(())
         })();
         if setup.is_err() {
             crate::engine::machinery("C06 setup failed");
         }
-        let mut run = Run { w, late: vec![], twin: None, last_written: None, ctx, label: label.clone(), wrote_since_twin: false };
+        let mut run = Run { w, late: vec![], twin: None, last_written: None, ctx, label: label.clone(), wrote_since_twin: false, other_kept: None };
+        run.read_sweep();
         for (i, op) in c.history.iter().enumerate() {
             if !run.step(*op) {
                 run.ctx.outcome(format!("history-not-applicable-at:{op:?}"));
@@ -435,7 +460,7 @@ pub fn meta(tier: &str) -> Meta {
     let n = cases(tier).len();
     Meta {
         level: "fault_enumeration",
-        rule: "every history over 11 operations of the target member (peer commit empty/add/remove, in-order and out-of-order application message, peer proposal, own update proposal, own group-context-extensions proposal, own commit left pending, own commit applied, late message of a prior epoch) up to the depth bound x every non-empty set of positions at which write_to_storage is called x every reload point x retention x which shipped store answers; each case is executed from scratch on the real implementation with the tee store (in-memory + SQLite + model); crash point = end of the history, i.e. after any number of unwritten operations following the last write (every prefix is itself a case); a case is non-trivial when its history is applicable".into(),
+        rule: "every history over 11 operations of the target member (peer commit empty/add/remove, in-order and out-of-order application message, peer proposal, own update proposal, own group-context-extensions proposal, own commit left pending, own commit applied, late message of a prior epoch) up to the depth bound x every non-empty set of positions at which write_to_storage is called x every reload point x retention x which shipped store answers, while the target member keeps a second, untouched group with four written epochs in the same storage (its records must stay as written in all three stores); each case is executed from scratch on the real implementation with the tee store (in-memory + SQLite + model); crash point = end of the history, i.e. after any number of unwritten operations following the last write (every prefix is itself a case); a case is non-trivial when its history is applicable".into(),
         assumptions: {
             let mut a = default_assumptions();
             a.push("crash points lie between GroupStateStorage calls; atomicity of one write inside SQLite / the in-memory mutex is assumed".into());
